@@ -146,6 +146,11 @@ def run(tier):
     evals_b, rows_b = c06b.run_part(v, tier)
     evals += evals_b
     nontrivial += evals_b
+    from . import c06c
+    evals_c, rows_c = c06c.run_part(v, tier)
+    evals += evals_c
+    nontrivial += evals_c
+    rows_b += rows_c
     if v.audit_disagreements > 0.02 * max(1, evals):
         raise ToolError("model/bash disagreement rate too high: %d of %d" % (v.audit_disagreements, evals))
     return v.finish({
@@ -156,7 +161,11 @@ def run(tier):
                 "the eight default/assign/alternative/error operators x {unset, null, set}; states = (value, operator) pairs evaluated by ParamOps.tla inside TLC, which also checks "
                 "the declarative shortest/longest clause (RemovalSound) and SubstrSound on every value; non-trivial = the result differs from the value or is an error; "
                 "second part (MC_ParamArr.tla): every array of <= 3 elements over 5 element values x slices ${a[@]:o:l} / ${@:o:l} with o in {-4..4}, ${#a[@]}, ${!a[@]}, ${#a[i]}, nine scalar operators mapped over the elements; "
-                "${!v} with its :- and :+ forms for v naming a set / empty / unset variable or unset itself; ${v@U} ${v@u} ${v@L}" % vl,
+                "${!v} with its :- and :+ forms for v naming a set / empty / unset variable or unset itself; ${v@U} ${v@u} ${v@L}; "
+                "third part (MC_ParamXform.tla): ${v@Q} (scalar, array, $@, $* forms, and reading the quoted text back) for every value of <= 3 characters over {a SP * ' \\ NL TAB e-acute ^A}; ${v@E} for every text of <= 4 "
+                "characters over {\\ x n 0 1 4 a ' z} (results with bytes >= 0x80 excluded); ${v@a} ${v@A} and the stored value for the 24 attribute sets over {i r x l|u} x {4 values, declared without value, unset}; "
+                "associative arrays of <= 2 of 3 keys (k, 'k 2', *) x count / keys / values / mapped operator / element with - :- + and length; 47 expansion forms under set -u with 0 and 1 positional parameters; "
+                "${v:o} ${v:o:l} with 12 offset and 6 length arithmetic expressions" % vl,
         "exhaustive": True,
         "samples": [{"value": text(r0["v"]), "expr": expr(r0["op"]), "expected": expected(r0)} for r0 in allrows[:: max(1, len(allrows) // 3)][:3]],
     }, assumptions=["bash 5.2.15 is the reference; a (value, operator) pair counts only if bash reproduces the model's result",
